@@ -63,3 +63,59 @@ Theorem C15_no_authority_verbatim : forall (O : oracles) (B : backend) s u sc nl
   u_path u = match p with [] => [] | _ => Q B PATH_REQUOTER p end.
 Proof. exact encode_url_keeps_dots. Qed.
 Print Assumptions C15_no_authority_verbatim.
+
+(** The invariant for EVERY operation sequence ("however produced").  [ainv u]: if [u] has
+    an authority, its stored path is empty or rooted and has no "." or ".." segment.
+    Established by the auto-encoding constructors (URL(str), build), preserved by each of
+    the 19 modifiers (with_name/with_suffix replace the last segment and reject dot names;
+    / and joinpath either see no '.' at all or run normalize_path_segments; parent drops
+    a segment; the authority and query modifiers keep the path) and by join, hence true of
+    every URL any program leaves on the stack - by induction over the instruction list. *)
+From Yarl Require Import Model.Prog Proofs.ReachWfProofs Proofs.DotReachProofs.
+Theorem C15_constructors_establish : forall (O : oracles) (B : backend) (c : ctor) (u : url),
+  auto_ctor c -> run_ctor O B c = Ok u -> ainv u.
+Proof. exact ctor_ainv. Qed.
+Print Assumptions C15_constructors_establish.
+
+Theorem C15_modifiers_preserve : forall (O : oracles) (B : backend) (u : url) (o : op) (u' : url),
+  ainv u -> auto_op o -> run_op O B u o = Ok u' -> ainv u'.
+Proof. exact op_preserves_ainv. Qed.
+Print Assumptions C15_modifiers_preserve.
+
+(** / and joinpath preserve it for encoded=True arguments too *)
+Theorem C15_joinpath_preserves : forall (B : backend) (u : url) (paths : list str) (enc : bool) (u' : url),
+  ainv u -> joinpath B u paths enc = Ok u' -> ainv u'.
+Proof. exact make_child_ainv. Qed.
+Print Assumptions C15_joinpath_preserves.
+
+Theorem C15_join_preserves : forall base ref : url, ainv base -> ainv ref -> ainv (join_url base ref).
+Proof. exact join_url_ainv. Qed.
+Print Assumptions C15_join_preserves.
+
+Theorem C15_programs : forall (O : oracles) (B : backend) (p : list instr) (st : list url),
+  Forall auto_instr p -> run_prog O B p [] = Ok st -> Forall ainv st.
+Proof. intros O B p st A H. exact (programs_ainv O B p [] st A (Forall_nil _) H). Qed.
+Print Assumptions C15_programs.
+
+(** non-vacuity: URL("http://h/a/b"), joinpath("x", ".."), a second URL "../../c/./d", join *)
+Definition c15_no_oracles : oracles :=
+  mk_oracles (fun s => s) (fun _ => None) (fun _ => None) (fun _ => None) (fun _ => None) (fun _ => None) (fun s => s).
+Definition c15_prog : list instr :=
+  [ IPush (CUrl [104;116;116;112;58;47;47;104;47;97;47;98]);
+    IOp (OJoinPath [[120]; [46;46]] false);
+    IPush (CUrl [46;46;47;46;46;47;99;47;46;47;100]);
+    IJoin ].
+Example C15_programs_example :
+  Forall auto_instr c15_prog /\
+  exists u, run_prog c15_no_oracles BC c15_prog [] = Ok [u] /\ ainv u
+            /\ u_netloc u = [104] /\ u_path u = [47;99;47;100].     (* http://h/c/d *)
+Proof.
+  assert (A : Forall auto_instr c15_prog).
+  { unfold c15_prog. repeat constructor; intro HH; discriminate HH. }
+  split; [exact A|].
+  destruct (run_prog c15_no_oracles BC c15_prog []) as [st|e] eqn:E; [|vm_compute in E; discriminate].
+  pose proof (C15_programs _ _ _ _ A E) as F. vm_compute in E.
+  match type of E with Ok [?u0] = Ok _ => exists u0 end. injection E as <-.
+  split; [vm_compute; reflexivity|]. split; [now inversion F|split; reflexivity].
+Qed.
+Print Assumptions C15_programs_example.
